@@ -497,7 +497,7 @@ func runC18(c *wk.Ctx) {
 		c.Begin(idx, "restart-history", nil)
 		c.Eval()
 		ops := c18History(r, 12+r.Intn(14))
-		d := &dhcpRun{c: c, idx: idx, ops: ops, net: nets[int(idx)%len(nets)], mode: dhcp4_spoofer.Mode(1 + idx%3), real: real}
+		d := &dhcpRun{c: c, idx: idx, ops: ops, net: dhcpNetFor(nets, idx), mode: dhcp4_spoofer.Mode(1 + idx%3), real: real}
 		if idx%2 == 0 {
 			d.dns = netip.MustParseAddr("9.9.9.9")
 		}
